@@ -96,6 +96,9 @@ func sameTrace(a, b []string) bool {
 
 // checkC03: equal values or all fail, identical host-call traces.
 func checkC03(w *Worker, cr *CaseResult, ir *InstResult) *Violation {
+	if ir.Ref.Clock {
+		return nil // the value depends on the wall clock; back ends run at different instants
+	}
 	if ir.Unstable {
 		return &Violation{Clause: "backends-disagree", Backend: -1,
 			Expected: "equal values on every back end (and on every run)",
